@@ -11,7 +11,7 @@ RULE = ('corpus; RGB lattice with 52 steps per channel (thorough: all 140608 tri
         'transfer-function knee (10.31475/255) and real-valued ramps at distance > 1e-6 from it; random triples; '
         'uint8/uint16/int32/float32/float64 inputs and dtype= requests; stretch/stretch_rgb: random, constant and '
         'two-valued images of 11 integer + 2 float dtypes x all three call forms x (min,max,dtype) requests inside the '
-        'dtype range. Non-trivial = not all-black / not constant; distinct = distinct protocol line.')
+        'dtype range; as_rgb: channels None / number / array of 8 dtypes, each array channel = stretch(channel). Non-trivial = not all-black / not constant; distinct = distinct protocol line.')
 ASSUMPTIONS = ['channel values lie in [0,255]; no NaN/inf',
                'a*, b* of greys: the 4-digit sRGB matrix (rows sum to (0.9505, 1, 1.089)) and the 5-digit white point of the '
                'standards do not agree further; Lean (C20_lab_grey_bound, over the reals) proves 0 <= a* <= 500/95047 = 0.00526 '
@@ -347,9 +347,91 @@ def _eval_stretch(case):
                 mi = core.ints(drv['int'])
                 if mi != [int(v) for v in yl]:
                     f.append(dict(kind='model', key='stretch:model-trunc', detail=dict(channel=ci)))
+                # the exact truncation `truncQ` (the one C20_stretch_int_cast is proved about) on the exact
+                # rational values of the same doubles: must agree with the Float cast `truncF`
+                elif 'intq' in drv and core.ints(drv['intq']) != mi:
+                    f.append(dict(kind='model', key='stretch:model-truncq', detail=dict(channel=ci)))
     return dict(findings=f, nontrivial=nontriv, sig=json.dumps(case, sort_keys=True),
                 tags=dict(kind='stretch_rgb' if case.get('rgb') else 'stretch', dtype=case['dtype'], out=case['out'],
                           form=form, layout=case.get('layout', 'C'), cls=case.get('cls', 'random')))
+
+
+def _eval_asrgb(case):
+    """`as_rgb(r, g, b)`: every array channel is `stretch(channel)` (0..255, uint8: the statement's monotone range map,
+    checked directly and against `mahotas.stretch` itself), `None` is a zero channel, a number fills the channel"""
+    import mahotas as mh
+    shape = tuple(case['shape'])
+    chans, befores = [], []
+    for spec in case['chans']:
+        if spec is None:
+            chans.append(None)
+        elif spec['t'] == 'scalar':
+            chans.append(spec['v'])
+        else:
+            chans.append(np.array(spec['data'], dtype=object).astype(spec['dtype']).reshape(shape))
+        befores.append(None if not isinstance(chans[-1], np.ndarray) else chans[-1].copy())
+    with warnings.catch_warnings():
+        warnings.simplefilter('ignore')
+        out = np.asarray(mh.as_rgb(*chans))
+    f = []
+    nontriv = False
+    if out.shape != shape + (3,) or out.dtype != np.uint8:
+        f.append(dict(kind='property', key='as_rgb:shape-dtype', detail=dict(shape=list(out.shape), dtype=str(out.dtype))))
+        return dict(findings=f, nontrivial=True, sig=json.dumps(case, sort_keys=True), tags=dict(kind='as_rgb'))
+    for k, (c, b0) in enumerate(zip(chans, befores)):
+        y = out[..., k]
+        if c is None:
+            if y.any():
+                f.append(dict(kind='property', key='as_rgb:none-channel-not-zero', detail=dict(channel=k)))
+        elif not isinstance(c, np.ndarray):
+            if not np.all(y == np.uint8(c)):
+                f.append(dict(kind='property', key='as_rgb:scalar-channel', detail=dict(channel=k, value=c)))
+        else:
+            if not (np.array_equal(b0, c) and b0.dtype == c.dtype):
+                f.append(dict(kind='property', key='as_rgb:input-modified', detail=dict(channel=k)))
+            xv = c.astype(np.float64).ravel()
+            yv = y.ravel().astype(np.int64)
+            if xv.max() > xv.min():
+                nontriv = True
+            order = np.argsort(xv, kind='stable')
+            ys, xs = yv[order], xv[order]
+            if np.any((ys[:-1] > ys[1:]) & (xs[:-1] <= xs[1:])):
+                f.append(dict(kind='property', key='as_rgb:monotone', detail=dict(channel=k)))
+            if int(yv[int(np.argmin(xv))]) != 0:
+                f.append(dict(kind='property', key='as_rgb:min-to-lower-bound', detail=dict(channel=k, got=int(yv[int(np.argmin(xv))]))))
+            with warnings.catch_warnings():
+                warnings.simplefilter('ignore')
+                ref = np.asarray(mh.stretch(c))
+            if not np.array_equal(ref, y):
+                f.append(dict(kind='property', key='as_rgb:channel-is-not-stretch', detail=dict(channel=k)))
+    return dict(findings=f, nontrivial=nontriv, sig=json.dumps(case, sort_keys=True), tags=dict(kind='as_rgb'))
+
+
+def _asrgb_case(rng):
+    shape = [rng.randint(1, 5), rng.randint(1, 5)]
+    n = shape[0] * shape[1]
+    chans = []
+    for _ in range(3):
+        r = rng.random()
+        if r < 0.15:
+            chans.append(None)
+        elif r < 0.3:
+            chans.append(dict(t='scalar', v=rng.choice([0, 1, 7, 128, 255])))
+        else:
+            dtype = rng.choice(['uint8', 'uint16', 'int32', 'int64', 'float32', 'float64', 'int8', 'bool'])
+            if dtype.startswith('float'):
+                data = [float(np.dtype(dtype).type(rng.choice([rng.uniform(-5, 5), rng.uniform(0, 2500), 0.0, 1.0]))) for _ in range(n)]
+            elif dtype == 'bool':
+                data = [rng.randint(0, 1) for _ in range(n)]
+            else:
+                lo, hi = gen.dt_range(dtype)
+                data = [rng.choice([rng.randint(max(lo, -300), min(hi, 300)), rng.randint(lo // 2, hi // 2), 0]) for _ in range(n)]
+            if rng.random() < 0.1:
+                data = [data[0]] * n
+            chans.append(dict(t='array', dtype=dtype, data=data))
+    if not any(c is not None and c['t'] == 'array' for c in chans):
+        chans[rng.randrange(3)] = dict(t='array', dtype='uint8', data=[rng.randint(0, 255) for _ in range(n)])
+    return dict(kind='as_rgb', shape=shape, chans=chans)
 
 
 def evaluate(cases):
@@ -364,6 +446,8 @@ def evaluate(cases):
             out.append(_eval_stretch(c))
         elif k == 'rgbimg':
             out.append(_eval_rgbimg(c))
+        elif k == 'as_rgb':
+            out.append(_eval_asrgb(c))
         else:
             raise core.Infra(f'unknown case kind {k}')
     return out
@@ -499,6 +583,8 @@ def cases(rng, tier):
     ns = dict(quick=1500, thorough=15000, search=6000)[tier]
     for _ in range(ns):
         out.append(_stretch_case(rng))
+    for _ in range(dict(quick=200, thorough=2000, search=600)[tier]):
+        out.append(_asrgb_case(rng))
     return out
 
 
